@@ -8,6 +8,8 @@ import Driver.SemDrv
 import Driver.Pos
 import Driver.V1
 import Driver.Sched
+import Driver.Invoke
+import Driver.ModStoreDrv
 open Driver
 
 /-- a trailing field starting with '#' carries human-readable context and is ignored -/
@@ -30,6 +32,8 @@ def dispatch (line : String) : String :=
   | "pos" :: args => handlePos args
   | "v1" :: args => handleV1 args
   | "sched" :: args => handleSched args
+  | "inv" :: args => handleInv args
+  | "ms" :: args => handleMs args
   | _ => "bad-op"
 
 partial def loop (h : IO.FS.Stream) (out : IO.FS.Stream) : IO Unit := do
